@@ -23,7 +23,8 @@ ASSUMPTIONS = [
     'are taken to mean equal data, which is the premise of fingerprinting',
     'a cache handler is abstracted to its fingerprint and served object set; for JsonCacheHandler `update_cache` '
     'serving exactly the given objects under the given fingerprint is C15 (served_after_update)',
-    'exceptions raised by the builder or by update_cache on bad data are outside the model',
+    'exceptions raised by the builder or by update_cache on bad data are outside the Lean model (the impl oracle '
+    'checks that an add which fails while rebuilding leaves registry and default untouched)',
 ]
 CLAUSES = {
     'add rebuilds and persists iff the data version is unknown or the cached fingerprint differs from '
@@ -255,6 +256,26 @@ def _oracle_case(rep, rnd, tmp, n, state, version, rounds):
     case = {'cache': state, 'version': version, 'round': rounds}
     if h.get_fingerprint() != fp0:
         rep.violate('cache prepared as %s reports fingerprint %r' % (state, h.get_fingerprint()), case)
+    # an add that fails while rebuilding registers nothing and moves no default
+    class Boom(Exception):
+        pass
+    bad = G.DataHandler(None, 1)
+    bad.t = dict(bad.t)
+    del bad.t['dgmeffects']
+
+    def boom():
+        raise Boom()
+    bad.get_dgmeffects = boom
+    scratch = G.JsonCacheHandler('%s/boom%d.json.bz2' % (tmp, n))
+    snapshot = (list(SourceManager.list()), SourceManager.default)
+    try:
+        SourceManager.add('boom', bad, scratch, make_default=True)
+        rep.violate('add with a failing data handler did not raise', case)
+    except Boom:
+        pass
+    if snapshot != (list(SourceManager.list()), SourceManager.default):
+        rep.violate('an add that failed while rebuilding changed the registry or the default: %r' % (
+            list(SourceManager.list()),), dict(case, failing_add=True))
     before_default = SourceManager.default
     mk = rnd.random() < 0.5
     dh = G.DataHandler(version, _salt(version))
